@@ -114,6 +114,13 @@ var Snippets = []Snippet{
 	{nil, "func shadowLocal${N}(Exported int) int {\n\tHelper := Exported + 1\n\ttype LocalT struct{ Q int }\n\treturn LocalT{Q: Helper}.Q\n}"},
 	{nil, "func useLocal${N}() int {\n\tv := LocalT{N: Exported}\n\treturn Helper() + v.N\n}"},
 	{[]string{"A"}, "func shadow${N}() int {\n\tV := struct{ F int }{F: 1}\n\treturn V.F + ${A}C\n}"},
+	// composite-literal keys: map and array keys are expressions (remote when they name another
+	// package's object), struct keys are field names even when a package-level name is spelled the same
+	{[]string{"A"}, "var kv${N} = map[int]int{${A}C: ${A}V, 7: ${A}F(1)}"},
+	{[]string{"A"}, "var ka${N} = [...]string{${A}C: \"x\"}"},
+	{[]string{"D"}, "var kd${N} = map[int]int{${D}DotV: ${D}DotF()}"},
+	{[]string{"A"}, "func kf${N}() int {\n\ttype s struct{ V, C int }\n\tx := s{V: ${A}V, C: ${A}C}\n\treturn x.V + x.C\n}"},
+	{nil, "var lk${N} = map[int]string{Exported: \"e\", Helper(): \"h\"}"},
 }
 
 // FileSpec describes how one file of the main package names the libraries.
